@@ -3,7 +3,7 @@ import collections
 import os
 import shutil
 
-from .. import climon, fastx, gen_cli as G
+from .. import climon, fastx, gen_cli as G, refmodel as R
 
 ID = "C20"
 LEVEL = "exploration"
@@ -47,8 +47,10 @@ def gen_case(rng):
         for a in ads1 + ads2:
             if a["kind"] in ("a", "g", "b") and rng.random() < 0.6:
                 s = list(a["parts"][0])
-                for p in rng.sample(range(len(s)), min(2, len(s) - 1)):
-                    s[p] = "N"
+                for p in rng.sample(range(len(s)), min(rng.choice([1, 2, 3]), len(s) - 1)):
+                    # N, or another IUPAC code that the planted base still matches
+                    codes = [c for c, bases in R.IUPAC.items() if s[p] in bases and len(bases) > 1 and c != "N"]
+                    s[p] = "N" if rng.random() < 0.5 or not codes else rng.choice(codes)
                 a["spec"] = "".join(s)
                 a["argv"] = [a["flag"], f"{a['name']}={a['spec']}"]
     rate = rng.choice(RATES)
